@@ -173,10 +173,10 @@ class HttpParser:
                 # We only work with gzip, for any other encoding
                 # type, remove the original header
                 self.del_header(b'content-encoding')
-        # If the request is of type chunked encoding
-        # add post data as chunk
+        # If the request is of type chunked encoding, build() and
+        # build_response() add the post data as chunks (doing it
+        # here as well would chunk-encode the body twice).
         if self.is_chunked_encoded:
-            body = ChunkParser.to_chunks(body)
             self.del_header(b'content-length')
         else:
             self.add_header(
